@@ -1,5 +1,5 @@
 """C06 - value semantics: copy, merge and transforms never alias (history-driven)."""
-import os, math, tempfile, shutil
+import os, math, tempfile, shutil, copy as _copy
 import numpy as np
 from hypothesis import strategies as st
 from vlib.runner import SubCheck
@@ -31,6 +31,22 @@ small = st.integers(-8, 8).map(lambda k: k / 4)
 vec3 = st.tuples(small, small, small).map(list)
 angle = st.integers(-12, 12).map(lambda k: k * math.pi / 12 + 0.01 * k)
 factor = st.sampled_from([0.5, 2.0, 0.25, 4.0, 1.5, 3.0, 0.1, 10.0, -1.0, -2.0])
+# how a boolean option is spelled by the caller: the Python singleton, a numpy.bool_ (what a numpy comparison / reduction yields), 0 / 1,
+# each positionally or by keyword ("kw-"); "default" = the option is left out (only used where the wanted value is the default)
+FLAG_FORMS = ["literal", "numpy", "int", "kw-literal", "kw-numpy", "kw-int"]
+flagform = st.sampled_from(FLAG_FORMS)
+# attributes: one fixed name per kind (type, values per element, dense storage)
+ATTR_KINDS = {"f1s": (float, 1, False), "f2d": (float, 2, True), "i1d": (int, 1, True), "b1s": (bool, 1, False), "f3s": (float, 3, False)}
+ATTR_TAGS = sorted(ATTR_KINDS)
+CONTAINERS = ["vertices", "edges", "faces", "face_corners", "cells", "cell_corners", "cell_faces"]
+attr_mode = st.sampled_from(["write", "write", "inplace", "inplace", "delete"])
+
+
+@st.composite
+def attr_op(draw, i, reuse=None, mode=None):
+    # [op, mesh, container selector, kind selector, reuse an attribute the mesh already carries, element selector, value, mode]
+    return ["attr_any", i, draw(st.integers(0, 20)), draw(st.integers(0, len(ATTR_TAGS) - 1)), draw(st.booleans()) if reuse is None else reuse,
+            draw(st.integers(0, 200)), draw(vec3), draw(attr_mode) if mode is None else mode]
 
 
 @st.composite
@@ -71,7 +87,8 @@ def history(draw):
         if n_pool:
             choices += ["merge", "copy", "copy", "boundary", "load", "subdiv", "translate", "translate", "rotate", "scale", "scale_xyz",
                         "normalize", "fit", "to_origin", "flatten", "edit_inplace", "edit_rebind", "append_vertex", "attr_write",
-                        "query", "roundtrip", "translate", "merge", "add_face", "add_face", "rotate_record", "rotate_record", "bad_call"]
+                        "query", "roundtrip", "translate", "merge", "add_face", "add_face", "rotate_record", "rotate_record", "bad_call",
+                        "attr_any", "attr_any", "attr_scenario", "attr_scenario"]
         op = draw(st.sampled_from(choices))
         i = draw(st.integers(0, 50))
         if op == "build":
@@ -84,7 +101,18 @@ def history(draw):
             ops.append([op, draw(st.lists(st.integers(0, 50), min_size=1, max_size=3))]); n_pool += 1
         elif op == "copy":
             # last field: the source is asked for its border / interior element lists BEFORE it is copied (0 = no, else which lists)
-            ops.append([op, i, draw(st.booleans()), draw(st.booleans()), draw(st.sampled_from([0, 0, 1, 2, 3]))]); n_pool += 1
+            ops.append([op, i, draw(st.booleans()), draw(st.booleans()), draw(st.sampled_from([0, 0, 1, 2, 3])), draw(flagform)]); n_pool += 1
+        elif op == "attr_any":
+            ops.append(draw(attr_op(i)))
+        elif op == "attr_scenario":
+            # an attribute is written on a mesh, the mesh is copied WITH its attributes, then the attribute is written / edited in place /
+            # deleted on the copy (-1 = newest mesh of the pool) or on the source (-2 = source of the latest copy)
+            ops.append(draw(attr_op(i, reuse=draw(st.sampled_from([False, False, True])), mode="write")))
+            if draw(st.booleans()):
+                ops.append(draw(attr_op(i, reuse=False, mode="write")))
+            ops.append(["copy", i, True, draw(st.booleans()), 0, draw(flagform)]); n_pool += 1
+            for _ in range(draw(st.integers(1, 2))):
+                ops.append(draw(attr_op(draw(st.sampled_from([-1, -2])), reuse=True)))
         elif op == "boundary":
             ops.append([op, i, draw(st.booleans())]); n_pool += 1
         elif op == "load":
@@ -94,14 +122,14 @@ def history(draw):
         elif op == "translate":
             ops.append([op, i, draw(vec3), draw(st.sampled_from(["vec", "numpy", "list"]))])
         elif op == "rotate":
-            ops.append([op, i, draw(st.sampled_from(["euler", "matrix", "rotation"])), [draw(angle), draw(angle), draw(angle)],
+            ops.append([op, i, draw(st.sampled_from(["euler", "euler_tuple", "matrix", "rotation"])), [draw(angle), draw(angle), draw(angle)],
                         draw(st.one_of(st.none(), vec3))])
         elif op == "scale":
-            ops.append([op, i, draw(factor), draw(st.one_of(st.none(), vec3))])
+            ops.append([op, i, draw(factor), draw(st.one_of(st.none(), vec3)), draw(st.sampled_from(["float", "float", "int", "numpy"]))])
         elif op == "scale_xyz":
             ops.append([op, i, [draw(factor), draw(factor), draw(factor)], draw(st.one_of(st.none(), vec3))])
         elif op == "normalize":
-            ops.append([op, i, draw(st.booleans())])
+            ops.append([op, i, draw(st.booleans()), draw(st.sampled_from(FLAG_FORMS + ["default"]))])
         elif op in ("fit", "to_origin", "query"):
             ops.append([op, i])
         elif op == "add_face":
@@ -111,7 +139,7 @@ def history(draw):
         elif op == "bad_call":
             ops.append([op, i, draw(st.integers(0, 5))])
         elif op == "flatten":
-            ops.append([op, i, draw(st.sampled_from([None, 0, 1, 2]))])
+            ops.append([op, i, draw(st.sampled_from([None, 0, 1, 2])), draw(st.sampled_from(["int", "numpy"]))])
         elif op == "edit_inplace":
             ops.append([op, i, draw(st.integers(0, 50)), draw(st.integers(0, 2)), draw(small)])
         elif op == "edit_rebind":
@@ -136,6 +164,9 @@ class Model:
         self.cls = cls
         self.attr = None         # model of the test attribute on vertices: dict index -> float
         self.family = set()      # ids of meshes this one was derived from / is source of
+        self.attrs = {}          # model of the generated attributes: (container, kind tag) -> {element index -> value}
+        self.attrs_known = False # the mesh can carry no generated attribute but the modelled ones (fresh mesh, or copy of such a mesh)
+        self.no_attrs = False    # attributes of this mesh are another property's business (loaded file, subdivision result)
 
 
 def read_mesh(m):
@@ -153,6 +184,27 @@ def corner_records(m):
             c = getattr(m, name)
             out[name] = ([int(x) for x in c._elem] if hasattr(c, "_elem") else None, [int(x) for x in c._adj] if hasattr(c, "_adj") else None)
     return out
+
+
+def flagval(v, form):
+    f = form[3:] if form.startswith("kw-") else form
+    if f == "numpy":
+        return np.array([1, 2, 3]).sum() > (0 if v else 100)     # a numpy.bool_, as a comparison / reduction yields it
+    if f == "int":
+        return 1 if v else 0
+    return bool(v)
+
+
+def attr_default(tag):
+    typ, n, _ = ATTR_KINDS[tag]
+    d = {float: 0.0, int: 0, bool: False}[typ]
+    return d if n == 1 else [d] * n
+
+
+def read_attr(m, cont, tag):
+    c = getattr(m, cont)
+    at = c.get_attribute("c06_" + tag)
+    return [np.asarray(at[i]).tolist() for i in range(len(c))]
 
 
 def snapshot(m):
@@ -259,6 +311,36 @@ def fn(case, ctx):
                     exp = {i: mdl.attr.get(i, 0.0) for i in range(len(mdl.V))}
                     if not ctx.check(got == exp, "attr:changed", f"{where}: vertex attribute of mesh #{mdl.id} reads {got}, expected {exp}"):
                         mdl.attr = {i: v for i, v in got.items() if v != 0.0}
+            if not mdl.no_attrs:
+                for cont in CONTAINERS:
+                    if not hasattr(m, cont):
+                        continue
+                    c = getattr(m, cont)
+                    for tag in ATTR_TAGS:
+                        k = (cont, tag)
+                        has = bool(c.has_attribute("c06_" + tag))
+                        if k in mdl.attrs:
+                            if not ctx.check(has, "attr:lost", f"{where}: attribute c06_{tag} on the {cont} of mesh #{mdl.id} disappeared"):
+                                del mdl.attrs[k]
+                                continue
+                            try:
+                                got = read_attr(m, cont, tag)
+                            except Exception as e:
+                                ctx.fail("attr:unreadable", f"{where}: attribute c06_{tag} on the {cont} of mesh #{mdl.id} cannot be read: {type(e).__name__}: {e}")
+                                del mdl.attrs[k]
+                                continue
+                            d = attr_default(tag)
+                            exp = [mdl.attrs[k].get(i, d) for i in range(len(got))]
+                            if not ctx.check(got == exp, "attr:changed", f"{where}: attribute c06_{tag} on the {cont} of mesh #{mdl.id}"
+                                             f"{' (NOT the target of this step)' if exact else ''} reads {got}, expected {exp}"):
+                                mdl.attrs[k] = {i: v for i, v in enumerate(got) if v != d}
+                        elif mdl.attrs_known and has:
+                            ctx.check(False, "attr:unexpected", f"{where}: mesh #{mdl.id} carries an attribute c06_{tag} on its {cont} that was never created on it "
+                                      f"nor on a mesh it was copied from with attributes")
+                            try:
+                                mdl.attrs[k] = {i: v for i, v in enumerate(read_attr(m, cont, tag)) if v != attr_default(tag)}
+                            except Exception:
+                                mdl.attrs_known = False
             # a light connectivity sample: answers must describe this mesh's own faces
             if mdl.cls == "SurfaceMesh" and mdl.F and not getattr(mdl, "no_conn", False):
                 Cn = m.connectivity
@@ -278,7 +360,16 @@ def fn(case, ctx):
         live = {x.id for _, x in pool}
         return bool(mdl.family & live)
 
+    last_src = [None]
+
     def pick(i):
+        if i == -1:
+            return pool[-1]                      # the newest mesh
+        if i == -2:                              # the source of the latest copy (if it is still in the pool)
+            for x in pool:
+                if x[1] is last_src[0]:
+                    return x
+            return pool[0]
         return pool[i % len(pool)]
 
     for step, op in enumerate(case["ops"]):
@@ -296,6 +387,7 @@ def fn(case, ctx):
             if not ok: return
             mdl = snapshot(m)
             ctx.check(np.array_equal(mdl.V, np.array(sp["V"], dtype=float).reshape(-1, 3)), "produce:build", f"{where}: built mesh does not have the input coordinates")
+            mdl.attrs_known = True
             add(m, mdl)
             ctx.label("producer=build")
         elif kind == "from_arrays":
@@ -316,6 +408,7 @@ def fn(case, ctx):
             mdl = snapshot(m)
             sharers = [x for x in arrays[k][2] if any(x is y for _, y in pool)]
             mdl.via_boundary = True    # rows of the caller's array are numpy views: direct in-place edits are issued as rebinding writes
+            mdl.attrs_known = True
             add(m, mdl, parents=sharers)
             arrays[k][2].append(mdl)
             ctx.label("producer=from_arrays")
@@ -342,7 +435,9 @@ def fn(case, ctx):
             }
             ok, m = ctx.call("produce:procedural:" + name, makers[name])
             if not ok: continue
-            add(m, snapshot(m))
+            pm = snapshot(m)
+            pm.attrs_known = True
+            add(m, pm)
             ctx.label("producer=procedural:" + name)
         elif kind == "merge":
             items = [pick(i) for i in op[1]]
@@ -380,8 +475,14 @@ def fn(case, ctx):
                 for nm in LISTS[:2 * preq]:
                     try: getattr(m0, nm)
                     except Exception: shared_ok = False
-            ok, m = ctx.call("produce:copy", M.mesh.copy, m0, op[2], op[3])
+            form = op[5] if len(op) > 5 else "literal"
+            fa, fc = flagval(op[2], form), flagval(op[3], form)
+            if form.startswith("kw-"):
+                ok, m = ctx.call("produce:copy", lambda: M.mesh.copy(m0, copy_connectivity=fc, copy_attributes=fa))
+            else:
+                ok, m = ctx.call("produce:copy", M.mesh.copy, m0, fa, fc)
             if not ok: continue
+            last_src[0] = mdl0
             if preq and shared_ok:
                 # lists handed out by the copy are the copy's: editing one in place must not change what the source hands out
                 ctx.label("copy-after-border-lists-were-queried")
@@ -403,10 +504,30 @@ def fn(case, ctx):
             elif not op[2]:
                 ctx.check(got.attr is None, "copy:attributes", f"{where}: copy without attributes carries the attribute")
             got.no_conn = getattr(mdl0, "no_conn", False)
+            got.no_attrs = mdl0.no_attrs
+            if op[2]:
+                # the copy carries every attribute of its source, with equal values (that they are its own is checked by the later steps)
+                for (cont, tag), vals in sorted(mdl0.attrs.items()):
+                    if mdl0.no_attrs: break
+                    try:
+                        a_src = read_attr(m0, cont, tag)
+                    except Exception:
+                        continue
+                    if ctx.check(hasattr(m, cont) and getattr(m, cont).has_attribute("c06_" + tag), "copy:attributes",
+                                 f"{where}: copy with attributes lacks the attribute c06_{tag} of the source's {cont}"):
+                        ok1, a_cp = ctx.call("copy:attributes", read_attr, m, cont, tag)
+                        if ok1:
+                            ctx.check(a_cp == a_src, "copy:attributes", f"{where}: attribute c06_{tag} on the {cont} of the copy reads {a_cp}, source {a_src}")
+                got.attrs = _copy.deepcopy(mdl0.attrs)
+                got.attrs_known = mdl0.attrs_known
+                if mdl0.attrs: ctx.label("copy-carries-generated-attributes")
+            else:
+                got.attrs = {}
+                got.attrs_known = True       # "copy_attributes: whether to also copy attributes data" - without it the copy carries none
             ctx.check(corner_records(m) == corner_records(m0), "copy:corner-records",
                       f"{where}: corner records (element, owner) of the copy differ from its source: {str(corner_records(m))[:200]} vs {str(corner_records(m0))[:200]}")
             add(m, got, parents=[mdl0])
-            ctx.label("producer=copy", f"copy-attributes={op[2]}", f"copy-connectivity={op[3]}")
+            ctx.label("producer=copy", f"copy-attributes={op[2]}", f"copy-connectivity={op[3]}", "copy-flags=" + form)
         elif kind == "boundary":
             m0, mdl0 = pick(op[1])
             from mouette.processing import border as B
@@ -452,6 +573,7 @@ def fn(case, ctx):
                 shutil.rmtree(d, ignore_errors=True)
             lm = snapshot(m)
             lm.no_conn = True      # whether a loaded mesh is well-formed is C04's business, not sampled here
+            lm.no_attrs = True     # ... and so is which attributes a file carries
             add(m, lm, parents=[mdl0])
             ctx.label("producer=load:" + fmt)
         elif kind == "subdiv":
@@ -473,6 +595,7 @@ def fn(case, ctx):
             got.family = set(mdl0.family)
             got.via_boundary = getattr(mdl0, "via_boundary", False)   # the result keeps the source's vertex arrays
             got.no_conn = getattr(mdl0, "no_conn", False)
+            got.no_attrs = True    # what a subdivision does with the attributes of the containers it rebuilds is not stated here
             add(res, got)
             ctx.label("producer=subdivision")
         elif kind == "query":
@@ -494,7 +617,7 @@ def fn(case, ctx):
             opmag_before = max(float(np.max(np.abs(mdl0.V))), argmag * (sc if sc != 1.0 else 1.0), argmag if kind in ("roundtrip",) else 0.0)
             if kind == "roundtrip":
                 opmag_before = max(opmag_before, float(np.max(np.abs(mdl0.V))) * max(abs(op[5]), 1 / abs(op[5])))
-            if related(mdl0) and kind not in ("attr_write",):
+            if related(mdl0) and kind not in ("attr_write", "attr_any"):
                 ctx.nontrivial()
             if kind == "translate":
                 t = np.array(op[2], dtype=float)
@@ -512,6 +635,9 @@ def fn(case, ctx):
                 orig = None if op[4] is None else Vec(*op[4])
                 if op[2] == "euler":
                     arg = list(op[3])
+                elif op[2] == "euler_tuple":
+                    arg = tuple(op[3])
+                    ctx.label("rotate-euler-tuple")
                 elif op[2] == "matrix":
                     arg = Rm.copy()
                 else:
@@ -528,7 +654,13 @@ def fn(case, ctx):
             elif kind == "scale":
                 orig = None if op[3] is None else Vec(*op[3])
                 o_before = None if orig is None else np.array(orig, dtype=float).copy()
-                ok, r = ctx.call("op:scale", T.scale, m0, op[2], orig)
+                fform = op[4] if len(op) > 4 else "float"
+                fac = op[2]
+                if fform == "int" and float(fac) == int(fac):
+                    fac = int(fac); ctx.label("scale-factor=int")
+                elif fform == "numpy":
+                    fac = np.float64(fac); ctx.label("scale-factor=numpy.float64")
+                ok, r = ctx.call("op:scale", T.scale, m0, fac, orig)
                 if not ok: continue
                 if orig is not None:
                     ctx.check(np.array_equal(np.array(orig, dtype=float), o_before), "arg:changed", f"{where}: scale changed its origin argument")
@@ -551,7 +683,16 @@ def fn(case, ctx):
                     ctx.discard("normalize-zero-extent"); target = None
                     continue
                 centered = (kind == "normalize" and op[2])
-                ok, r = ctx.call("op:" + kind, (lambda: T.normalize(m0, op[2])) if kind == "normalize" else (lambda: T.fit_into_unit_cube(m0)))
+                if kind == "normalize":
+                    form = op[3] if len(op) > 3 else "literal"
+                    if form == "default" and not op[2]:
+                        form = "literal"
+                    fv = flagval(op[2], form)
+                    call = (lambda: T.normalize(m0)) if form == "default" else (lambda: T.normalize(m0, center_at_zero=fv)) if form.startswith("kw-") else (lambda: T.normalize(m0, fv))
+                    ctx.label("normalize-flag=" + form + ("/centred" if centered else "/origin"))
+                else:
+                    call = lambda: T.fit_into_unit_cube(m0)
+                ok, r = ctx.call("op:" + kind, call)
                 if not ok: continue
                 mn, mx = mdl0.V.min(axis=0), mdl0.V.max(axis=0)
                 # round-off of the translation is relative to the coordinates' magnitude BEFORE normalising (a mesh far from the
@@ -585,7 +726,10 @@ def fn(case, ctx):
                     dim = int(np.argmin(var))
                     ok, r = ctx.call("op:flatten", T.flatten, m0)
                 else:
-                    ok, r = ctx.call("op:flatten", T.flatten, m0, dim)
+                    if len(op) > 3 and op[3] == "numpy":
+                        ok, r = ctx.call("op:flatten", T.flatten, m0, np.int64(dim)); ctx.label("flatten-dim=numpy.int64")
+                    else:
+                        ok, r = ctx.call("op:flatten", T.flatten, m0, dim)
                 if not ok: continue
                 mdl0.V = mdl0.V.copy(); mdl0.V[:, dim] = 0.0
             elif kind == "edit_inplace":
@@ -673,6 +817,66 @@ def fn(case, ctx):
                 mdl0.attr[v] = float(op[3])
                 if mdl0.attr[v] == 0.0: del mdl0.attr[v]
                 if related(mdl0): ctx.nontrivial()
+            elif kind == "attr_any":
+                # create / write / edit in place / delete an attribute on ANY container of the mesh (vertices, edges, faces, cells and
+                # the corner containers), through the public container API
+                if mdl0.no_attrs:
+                    target = None; continue
+                csel, ksel, reuse, idx, val, mode = op[2:8]
+                keys = sorted(mdl0.attrs)
+                if reuse and keys:
+                    cont, tag = keys[csel % len(keys)]
+                else:
+                    avail = [c for c in CONTAINERS if hasattr(m0, c) and len(getattr(m0, c)) > 0]
+                    cont, tag = avail[csel % len(avail)], ATTR_TAGS[ksel % len(ATTR_TAGS)]
+                c = getattr(m0, cont)
+                typ, nval, dense = ATTR_KINDS[tag]
+                name = "c06_" + tag
+                if len(c) == 0:
+                    target = None; continue
+                if (cont, tag) not in mdl0.attrs:
+                    if c.has_attribute(name):
+                        # carried over by a producer that promises nothing about attributes (or reported by verify already)
+                        ctx.label("attr-unmodelled-skipped"); target = None; continue
+                    ok, at = ctx.call("op:create_attribute", lambda: c.create_attribute(name, typ, nval, dense=dense))
+                    if not ok: continue
+                    mdl0.attrs[(cont, tag)] = {}
+                    if mode == "delete": mode = "write"
+                    ctx.label("attr-created")
+                else:
+                    ok, at = ctx.call("op:get_attribute", c.get_attribute, name)
+                    if not ok: continue
+                vals = mdl0.attrs[(cont, tag)]
+                e = idx % len(c)
+                d = attr_default(tag)
+                if mode == "delete":
+                    ok, _ = ctx.call("op:delete_attribute", c.delete_attribute, name)
+                    if not ok: continue
+                    del mdl0.attrs[(cont, tag)]
+                elif mode == "inplace" and nval > 1 and (dense or e in vals):
+                    # component update of a stored vector value (dense: a row of the array; sparse: the stored vector)
+                    comp = (idx // 7) % nval
+                    x = at[e]
+                    x[comp] = float(val[0])
+                    new = list(vals.get(e, d)); new[comp] = float(val[0])
+                    vals[e] = new
+                else:
+                    mode = "write"
+                    if nval > 1:
+                        v = Vec(*[float(t) for t in val[:nval]]); mv = [float(t) for t in val[:nval]]
+                    elif typ is float:
+                        v = mv = float(val[0])
+                    elif typ is int:
+                        v = mv = int(val[0] * 4)
+                    else:
+                        v = mv = bool(val[0] > 0)
+                    ok, _ = ctx.call("op:attribute-write", at.__setitem__, e, v)
+                    if not ok: continue
+                    vals[e] = mv
+                live = {x.id: x for _, x in pool}
+                if any(r in live and (cont, tag) in live[r].attrs for r in mdl0.family):
+                    ctx.label("attr-op-while-a-relative-carries-the-same-attribute"); ctx.nontrivial()
+                ctx.label("attr-container=" + cont, "attr-kind=" + tag, "attr-mode=" + mode)
             elif kind == "roundtrip":
                 which = op[2]
                 before = mdl0.V.copy()
